@@ -363,6 +363,9 @@ impl<'a> J<'a> {
     fn result_clauses(&mut self, out: &FRun, c: &FCall, kind: &str) {
         let scn = self.scn;
         self.rep.eval();
+        // window of the (shared) lookup this caller took part in: it may have joined an identical
+        // lookup that was already in flight when it started
+        let ws = out.calls.iter().filter(|d| d.q == c.q && d.start <= c.start && d.end > c.start).map(|d| d.start).min().unwrap_or(c.start).min(c.start);
         match &c.outcome {
             Outcome::Ok { server, proto, q, seq, tc, marker, .. } => {
                 let srv = scn.servers.get(*server as usize);
@@ -385,7 +388,7 @@ impl<'a> J<'a> {
                 } else {
                     let ev = out.log.iter().find(|e| e.seq == *seq && matches!(e.kind, "udp-deliver" | "tcp-deliver"));
                     match ev {
-                        Some(e) if e.server == *server as usize && e.proto == *proto && e.q == c.q as i32 && e.t >= c.start && e.t <= c.end => {
+                        Some(e) if e.server == *server as usize && e.proto == *proto && e.q == c.q as i32 && e.t >= ws && e.t <= c.end => {
                             if *tc {
                                 // TC=1 handed to the caller although TCP would have answered in time
                                 let s = srv.unwrap();
@@ -424,7 +427,7 @@ impl<'a> J<'a> {
                             (Some(s), 2) => matches!(&s.tcp, Some(t) if matches!(t.reply, Reply::Nx { .. })),
                             _ => false,
                         };
-                        scripted && e.q == c.q as i32 && e.t >= c.start && e.t <= c.end
+                        scripted && e.q == c.q as i32 && e.t >= ws && e.t <= c.end
                     }
                     None => false,
                 };
@@ -443,9 +446,9 @@ impl<'a> J<'a> {
         // an untrusted NXDOMAIN does not end the search
         if kind == "nx-untrusted" {
             self.rep.count("fs_nx_untrusted_final");
-            let tc_seen = out.log.iter().any(|e| e.what == "tc" && e.t >= c.start && e.t <= c.end);
+            let tc_seen = out.log.iter().any(|e| e.what == "tc" && e.t >= ws && e.t <= c.end);
             for (i, s) in scn.servers.iter().enumerate() {
-                let contacted = out.log.iter().any(|e| e.server == i && e.t >= c.start && e.t <= c.end && matches!(e.kind, "udp-bind" | "udp-send" | "tcp-connect" | "tcp-query"));
+                let contacted = out.log.iter().any(|e| e.server == i && e.t >= ws && e.t <= c.end && matches!(e.kind, "udp-bind" | "udp-send" | "tcp-connect" | "tcp-query"));
                 if !contacted && !(s.tcp.is_none() && tc_seen) {
                     self.viol(
                         "fs-nx-untrusted",
@@ -680,10 +683,17 @@ pub fn judge(rep: &mut Reporter, scn: &FScn) {
 
         // availability
         let good = kind == "ok";
+        // coarse class of what came back instead (part of the signatures)
+        let got = match kind.as_str() {
+            "ok-tc" => "tc-message",
+            k if k.starts_with("nx-") => "nxdomain",
+            "err-Timeout" => "timeout",
+            _ => "error",
+        };
         if exact_ok {
             j.rep.eval();
             match &pred {
-                Pred::Answer { t, proto, via_tc, tcp_l, slowest, after_conn_timeout, .. } if *t <= budget => {
+                Pred::Answer { t, via_tc, tcp_l, slowest, after_conn_timeout, .. } if *t <= budget => {
                     j.rep.count("fs_avail_exact_applicable");
                     let slow_tcp = matches!(tcp_l, Some(l) if *l > scn.connect_timeout);
                     if *via_tc {
@@ -697,11 +707,11 @@ pub fn judge(rep: &mut Reporter, scn: &FScn) {
                     }
                     if !good {
                         let (rule, sig) = if *via_tc {
-                            ("fs-truncation", format!("tcp-reply-{}-connect_timeout|slowest-failure={}|got={kind}", if slow_tcp { "gt" } else { "le" }, slowest.0))
+                            ("fs-truncation", format!("tcp-reply-{}-connect_timeout|got={got}", if slow_tcp { "gt" } else { "le" }))
                         } else if slow_tcp {
-                            ("fs-slow-tcp", format!("slowest-failure={}|got={kind}", slowest.0))
+                            ("fs-slow-tcp", format!("got={got}"))
                         } else {
-                            ("fs-availability", format!("model=exact|via={}|slowest-failure={}|got={kind}", pname(*proto), slowest.0))
+                            ("fs-availability", format!("model=exact|slowest-failure={}|got={got}", slowest.0))
                         };
                         j.viol(
                             rule,
@@ -723,7 +733,7 @@ pub fn judge(rep: &mut Reporter, scn: &FScn) {
                     let tc = out.log.iter().any(|e| e.what == "tc");
                     j.viol(
                         "fs-availability",
-                        &format!("model=sum{}|got={kind}", if tc { "|after-truncation" } else { "" }),
+                        &format!("model=sum{}|got={got}", if tc { "|after-truncation" } else { "" }),
                         json!({"every order of attempts reaches a healthy answer within 80 % of the timeout; T_worst_ms": t, "budget_ms": budget}),
                         observed(&out, c),
                     );
@@ -737,7 +747,7 @@ pub fn judge(rep: &mut Reporter, scn: &FScn) {
             if !good {
                 j.viol(
                     "fs-availability",
-                    &format!("model=busy-with-healthy-second-server|got={kind}"),
+                    &format!("model=busy-with-healthy-second-server|got={got}"),
                     json!("back-pressure on one server costs no time; a healthy second server answers within the budget"),
                     observed(&out, c),
                 );
@@ -758,21 +768,52 @@ pub fn judge(rep: &mut Reporter, scn: &FScn) {
     }
 
     // ---- (vii) sharing
-    if scn.callers.len() >= 2 && scn.single_key_at_zero() && out.calls[0].end == out.calls[0].start {
+    let single_key = scn.callers.iter().all(|c| c.q == scn.callers[0].q);
+    if scn.callers.len() < 2 || !single_key || busy_family {
+        return;
+    }
+    // the caller that started first created the shared lookup
+    let first = out.calls.iter().min_by_key(|c| (c.start, c.idx)).unwrap().clone();
+    let e_min = out.calls.iter().map(|c| c.end).min().unwrap_or(0);
+    if first.end == first.start {
         // a lookup that completes at the instant it started (e.g. the only server refuses the
         // TCP connect at once, inside the creator's first poll): the other callers start "at the
         // very instant an identical lookup completes" and may join it or not — don't-care
         j.rep.count("fs_dc_sharing_zero_time_lookup");
-    } else if scn.callers.len() >= 2 && scn.single_key_at_zero() {
-        let c0 = &out.calls[0];
-        for c in &out.calls[1..] {
+        return;
+    }
+    if out.calls.iter().all(|c| c.start < e_min) {
+        // all k callers are concurrent: they share every pool lookup (with a RetryDnsHandle on top:
+        // every attempt), hence complete at the same instant with the same outcome
+        for c in out.calls.iter().filter(|c| c.idx != first.idx) {
             j.rep.eval();
             j.rep.count("fs_sharing_joiners");
-            if c.end != c0.end || c.outcome != c0.outcome {
-                let sig = if c.end != c0.end { "joiner-completion-time-differs" } else { "joiner-outcome-differs" };
-                j.viol("fs-sharing", sig, json!({"all callers of one shared lookup complete with it": call_json(c0)}), observed(&out, c));
+            if c.start > first.start {
+                j.rep.count("fs_sharing_joiners_staggered");
+            }
+            if c.end != first.end || c.outcome != first.outcome {
+                // structural discriminator: was one of the two handed the result of an already
+                // completed shared lookup by a *retry* (a pool lookup that is not the caller's
+                // first, starts at the completion instant and ends at once)?
+                let zero_retry = |idx: usize| {
+                    let mine: Vec<&full::Attempt> = out.attempts.iter().filter(|a| a.caller == idx as i32).collect();
+                    mine.iter().skip(1).any(|a| a.end == Some(a.start))
+                };
+                let sig = if scn.retry.is_some() && (zero_retry(c.idx) || zero_retry(first.idx)) {
+                    "retry-attempt-served-from-completed-shared-lookup"
+                } else if c.end != first.end {
+                    "joiner-completion-time-differs"
+                } else {
+                    "joiner-outcome-differs"
+                };
+                j.viol("fs-sharing", sig, json!({"all concurrent identical callers complete together with the same outcome": call_json(&first)}), observed(&out, c));
             }
         }
+    } else {
+        j.rep.count("fs_dc_sharing_not_all_concurrent");
+    }
+    if scn.single_key_at_zero() {
+        let c0 = &out.calls[0];
         let solo = match mon::catch(|| full::run(scn, &scn.callers[..1], false)) {
             Ok(o) => o,
             Err(_) => return,
@@ -809,4 +850,20 @@ pub fn judge(rep: &mut Reporter, scn: &FScn) {
             );
         }
     }
+}
+
+/// debugging aid for `--replay FILE --dump=1`
+pub fn dump(scn: &FScn) {
+    let out = full::run(scn, &scn.callers, scn.later);
+    for c in out.calls.iter().chain(out.later.iter()) {
+        eprintln!("{}", call_json(c));
+    }
+    for a in &out.attempts {
+        eprintln!("pool lookup: caller {} start {} end {:?}", a.caller, a.start, a.end);
+    }
+    for e in &out.log {
+        eprintln!("{}", e.json());
+    }
+    let (p, trace) = exact(scn);
+    eprintln!("exact model: {p:?} {trace:?}; sum bound: {:?}", sum_bound(scn));
 }
